@@ -508,6 +508,13 @@ class LambdaExpression(Expression):
                 stream.next()
 
         stream.expect(TokenType.RPAREN)
+
+        if not params:
+            raise LiquidSyntaxError(
+                "lambda expressions need at least one parameter",
+                token=stream.current(),
+            )
+
         stream.next()
         stream.expect(TokenType.ARROW)
         stream.next()
